@@ -95,6 +95,9 @@ func driveC07(t *testing.T, out *vEmitter) {
 		{User: "", Email: "carol@example.com", Groups: []string{"", "x", ""}, AccessToken: ""},
 		{User: "dave", Email: "", Groups: []string{}, IDToken: "", PreferredUsername: ""},
 		{User: "erin,admin", Email: "erin@example.com", Groups: []string{"a,b", "c"}},
+		// as built by the bearer-token loader: an expiry but no creation time; and the reverse
+		{User: "tok", Email: "tok@example.com", AccessToken: "AT-b", IDToken: "IDT-b", ExpiresOn: &later},
+		{User: "ck", Email: "ck@example.com", CreatedAt: &now},
 	}
 	configs := [][]options.Header{
 		{{Name: "X-Forwarded-User", Values: []options.HeaderValue{claim("user")}}, {Name: "X-Forwarded-Email", Values: []options.HeaderValue{claim("email")}}},
@@ -179,6 +182,33 @@ func driveC07(t *testing.T, out *vEmitter) {
 							out.Violation("headers/value-without-session", "a claim-derived header value was sent upstream although there is no session",
 								map[string]interface{}{"config": ci, "header": h.Name, "values": seenHdr[k]})
 						}
+					}
+				}
+				// oracle: a name configured once, not preserved, with plain claim values only, carries exactly the
+				// session's values for those claims (reference reading of the session, not the model)
+				for _, h := range cfg {
+					k := textproto.CanonicalMIMEHeaderKey(h.Name)
+					cnt, plain := 0, !h.PreserveRequestValue
+					for _, h2 := range cfg {
+						if textproto.CanonicalMIMEHeaderKey(h2.Name) == k {
+							cnt++
+						}
+					}
+					var want []string
+					for _, v := range h.Values {
+						if v.ClaimSource == nil || v.ClaimSource.Prefix != "" || v.ClaimSource.BasicAuthPassword != nil {
+							plain = false
+							break
+						}
+						want = append(want, vRefClaim(s, v.ClaimSource.Claim)...)
+					}
+					if cnt != 1 || !plain {
+						continue
+					}
+					// (the injector sends one header line with the values joined by commas)
+					if strings.Join(seenHdr[k], ",") != strings.Join(want, ",") || (len(want) == 0) != (len(seenHdr[k]) == 0) {
+						out.Violation("headers/derived-values-wrong", "a configured header does not carry exactly the values derived from the session",
+							map[string]interface{}{"config": ci, "header": h.Name, "got": seenHdr[k], "want": want})
 					}
 				}
 				// auth-only response headers
@@ -342,4 +372,49 @@ func vC07Legacy(t *testing.T, out *vEmitter) {
 	}
 	out.Stat("legacy_configs", n)
 	_ = fmt.Sprint
+}
+
+
+// vRefClaim: the values a session holds for a claim name, read straight from its fields.
+func vRefClaim(s *sessionsapi.SessionState, claim string) []string {
+	if s == nil {
+		return nil
+	}
+	one := func(v string) []string {
+		if v == "" {
+			return nil
+		}
+		return []string{v}
+	}
+	switch claim {
+	case "user":
+		return one(s.User)
+	case "email":
+		return one(s.Email)
+	case "preferred_username":
+		return one(s.PreferredUsername)
+	case "access_token":
+		return one(s.AccessToken)
+	case "id_token":
+		return one(s.IDToken)
+	case "refresh_token":
+		return one(s.RefreshToken)
+	case "groups":
+		var g []string
+		for _, x := range s.Groups {
+			if x != "" {
+				g = append(g, x)
+			}
+		}
+		return g
+	case "created_at":
+		if s.CreatedAt != nil {
+			return []string{s.CreatedAt.String()}
+		}
+	case "expires_on":
+		if s.ExpiresOn != nil {
+			return []string{s.ExpiresOn.String()}
+		}
+	}
+	return nil
 }
